@@ -35,6 +35,15 @@ var (
 	OsOpen     = os.Open
 	OsMkdirAll = os.MkdirAll
 	OsExit     = os.Exit
+
+	OsOpenFile  = os.OpenFile
+	OsRemove    = os.Remove
+	OsRemoveAll = os.RemoveAll
+	OsRename    = os.Rename
+	OsWriteFile = os.WriteFile
+	OsReadFile  = os.ReadFile
+	OsStat      = os.Stat
+	OsMkdir     = os.Mkdir
 )
 
 // ---- randomness ------------------------------------------------------------------------------------------------------
